@@ -111,3 +111,33 @@ def describe(stage, clause): return CLAUSES.get(clause, 'clause %d' % clause)
 def matches_known(k, case, verdict): return False
 TRUSTED = TRUSTED_BASE + ['Bevy 0.15 observer dispatch and command flushing (modelled operationally, validated by the traces)']
 ASSUMES = ['events-only blockers at action level only in this profile', 'deltas m*2^-e s so that f32 sums are exact']
+
+
+def blocked_input_cases(tier, rng):
+    """several inputs of different significance, events-only blockers at input level: a blocker on an input that does not
+    contribute (a less significant one) suppresses nothing - the events of the transition are delivered"""
+    import C03
+    for c, tag in C03.cases(tier, rng):
+        if tag.startswith('random-2') or tag.startswith('random-3'):
+            yield (c, 'multi-input-' + tag)
+    # explicit: input 0 Ongoing with a failing events-only blocker, input 1 Fired without one (both orders)
+    from scen import Ids, bind, key, PROBE, c_script, spec, sop, spawn, frame, raw, scenario, idlist
+    for order in (0, 1):
+        for lose in ('SOngoing', 'SNone'):
+            ids = Ids(); L = 6
+            am = idlist(ids, [PROBE]); ac = idlist(ids, [])
+            b_lose = lambda: bind(ids, key(0), [PROBE], [c_script('KExplicit', [lose] * (L + 1)), c_script('(KBlocker true)', ['SFired', 'SNone', 'SNone', 'SFired', 'SNone', 'SNone', 'SNone'])])
+            b_win = lambda: bind(ids, key(1), [PROBE], [c_script('KExplicit', ['SNone', 'SFired', 'SFired', 'SFired', 'SNone', 'SFired', 'SOngoing'])])
+            binds = [b_lose(), b_win()] if order == 0 else [b_win(), b_lose()]
+            act = '(mkAction %d %s %s %s)' % (C03.A, am, ac, lst(binds))
+            steps = [sop(spawn(0, [0])), frame(raw())] + [frame(raw(keys=[0, 1])) for _ in range(L)]
+            yield (scenario([0], [0], {(0, 0): spec([act])}, steps), 'blocker-on-losing-input')
+
+STAGES.append(dict(name='blocked', mode='app', coq='Check.C03c', profile=('Proofs.JudgeC03P', 'JudgeC03P.profile_C03b', 'C03_app_judgement_sound / C03_app_judgement_transfer (the stage is judged by Check.C03c)'),
+                   cases=blocked_input_cases, nontrivial=lambda case, out: 'SFired' in out, shard=40, exhaustive={'thorough': False, 'quick': False},
+                   rule='one action with 2-3 key inputs whose scripted conditions give them different own states, events-only blockers at input level (also on inputs that do not contribute); the events of a frame are delivered iff no events-only blocker of a CONTRIBUTING input or of the action level failed, and then they are the table of the transition'))
+_describe1 = describe
+def describe(stage, clause):
+    if stage == 'blocked':
+        return {1: 'the state is not the law of the contributing and action-level results', 2: 'events were withheld although no applicable events-only blocker failed (or delivered although one did), or their number is not that of the transition table'}.get(clause, 'clause %d' % clause)
+    return _describe1(stage, clause)
